@@ -20,8 +20,9 @@
    replaced by the stronger statements below; their lemmas remain in ResumeProofs.v. *)
 From Robsd Require Import Orch.ResumeSpec Orch.ResumeProofs Orch.ResumeExec Orch.ResumeTie Orch.WrittenInv
                           Orch.ReportBridge.
-From Robsd Require Orch.OrchDefs Report.ReportSpec.
+From Robsd Require Orch.OrchDefs Report.ReportSpec Orch.RunLock Orch.RunLockProofs Orch.ResumeDamaged.
 From Coq Require Import Sorting.Sorted.
+From RobsdGen Require Gen_Orch.
 Local Open Scope Z_scope.
 
 (* the sentence of the property, literally: last recorded non-skipped step if it failed / was in flight /
@@ -127,6 +128,64 @@ Theorem C03_parallel_resume_skips_inflight :
      In (g, ex) (orch (from_step 3 steps) (OrchDefs.sfile_ par_crashed)) -> ~ In 1 ex).
 Proof. exact parallel_resume_skips_inflight. Qed.
 Print Assumptions C03_parallel_resume_skips_inflight.
+
+(* "if nothing but skipped steps is recorded resuming fails" - and what the failed attempt then does.  The entry
+   scripts install their EXIT trap BEFORE step_next runs; when step_next fails (nothing but skip records - or a step
+   file robsd-step cannot read: emptied or cut short, what the C01 known finding refused-write-damages-file leaves),
+   trap_exit finds has_steps false and removes the WHOLE build directory the operator asked to resume, logs and
+   report included.  Stated on the invocation model (Orch/RunLock.v: an unreadable file reads as no rows); replayed
+   on the real canvas for an emptied step file, one cut in the header and one cut inside a row (harness lane
+   damaged-resume, signature resume-on-damaged-step-file-deletes-build) *)
+Theorem C03_failed_resume_removes_the_build_directory : forall w b d f,
+  RunLock.dir_find (RunLock.iw_dirs w) b = Some f -> OrchDefs.has_steps f = false ->
+  let w' := fst (RunLock.invoke_end ShapeDefs.RelWholeFileEqual w b OrchDefs.OFailed d) in
+  step_next f = None /\ RunLock.dir_find (RunLock.iw_dirs w') b = None /\
+  snd (RunLock.invoke_end ShapeDefs.RelWholeFileEqual w b OrchDefs.OFailed d) = 1.
+Proof. exact ResumeDamaged.failed_resume_removes_the_build_directory. Qed.
+Print Assumptions C03_failed_resume_removes_the_build_directory.
+
+(* the same, for the entry scripts as they are on this run (gen/Gen_Orch.resume_failure_form, read by harness/t_orch.py in
+   canvas, robsd, robsd-cross, robsd-ports, robsd-regress): EITHER they are the shipped ones - trap first, $BUILDDIR kept -
+   and a resume attempt on a directory whose step file has no readable step removes that directory, OR they are repaired
+   (the trap installed later, or $BUILDDIR cleared before `exit 1`: /repo d2af489) and the failed attempt leaves the world
+   exactly as it was.  Proved by cases on the generated constant: the theorem follows the source *)
+Theorem C03_failed_resume_decided :
+  (Gen_Orch.resume_failure_form = ShapeDefs.RFTrapOnBuilddir /\
+   forall w b d f, RunLock.dir_find (RunLock.iw_dirs w) b = Some f -> OrchDefs.has_steps f = false ->
+     step_next f = None /\
+     RunLock.dir_find (RunLock.iw_dirs (ResumeDamaged.failed_resume Gen_Orch.resume_failure_form w b d)) b = None) \/
+  (Gen_Orch.resume_failure_form <> ShapeDefs.RFTrapOnBuilddir /\
+   forall w b d, ResumeDamaged.failed_resume Gen_Orch.resume_failure_form w b d = w).
+Proof.
+  exact (match Gen_Orch.resume_failure_form as t return
+           (t = ShapeDefs.RFTrapOnBuilddir /\
+            forall w b d f, RunLock.dir_find (RunLock.iw_dirs w) b = Some f -> OrchDefs.has_steps f = false ->
+              step_next f = None /\ RunLock.dir_find (RunLock.iw_dirs (ResumeDamaged.failed_resume t w b d)) b = None) \/
+           (t <> ShapeDefs.RFTrapOnBuilddir /\ forall w b d, ResumeDamaged.failed_resume t w b d = w)
+         with
+         | ShapeDefs.RFTrapOnBuilddir => or_introl (conj eq_refl ResumeDamaged.failed_resume_trap_on_builddir_removes)
+         | ShapeDefs.RFTrapLater =>
+             or_intror (conj (fun H : ShapeDefs.RFTrapLater = ShapeDefs.RFTrapOnBuilddir => eq_ind ShapeDefs.RFTrapLater (fun x => match x with ShapeDefs.RFTrapLater => True | _ => False end) I _ H)
+                             (fun w b d => eq_refl))
+         | ShapeDefs.RFBuilddirCleared =>
+             or_intror (conj (fun H : ShapeDefs.RFBuilddirCleared = ShapeDefs.RFTrapOnBuilddir => eq_ind ShapeDefs.RFBuilddirCleared (fun x => match x with ShapeDefs.RFBuilddirCleared => True | _ => False end) I _ H)
+                             (fun w b d => eq_refl))
+         end).
+Qed.
+Print Assumptions C03_failed_resume_decided.
+
+(* that the repaired forms are repairs: in every form but the shipped one a failed resume attempt changes nothing *)
+Theorem C03_failed_resume_repaired_forms : forall rf w b d,
+  rf <> ShapeDefs.RFTrapOnBuilddir -> ResumeDamaged.failed_resume rf w b d = w.
+Proof. exact ResumeDamaged.failed_resume_otherwise_keeps. Qed.
+Print Assumptions C03_failed_resume_repaired_forms.
+
+(* the guard under which an exit trap never removes a directory: its step file holds a step that is not skipped *)
+Theorem C03_exit_trap_keeps_directories_with_steps : forall t w b m d f,
+  RunLock.dir_find (RunLock.iw_dirs w) b = Some f -> OrchDefs.has_steps f = true ->
+  RunLock.dir_find (RunLock.iw_dirs (fst (RunLock.invoke_end t w b m d))) b = Some f.
+Proof. exact ResumeDamaged.exit_trap_keeps_directories_with_steps. Qed.
+Print Assumptions C03_exit_trap_keeps_directories_with_steps.
 
 (* non-vacuity: a, b(skipped), c(fails with 2), a AGAIN (same name as step 1), end.  The fresh run is killed
    while c is in flight / stops after c failed; the operator repairs c; the resumed run (c now exits 0) runs
